@@ -17,6 +17,7 @@ from __future__ import annotations
 import ast
 
 from .. import cfg
+from .. import inline
 from ..facts import call_name, dotted, norm
 from ..linters import Linters
 from ..util import func_paths, is_call_named, is_caught
@@ -150,13 +151,14 @@ def check(run, ctx):
                     if any(isinstance(a, ast.Assign) and ast.unparse(a.targets[0]) == c_.comparators[0].id and ast.unparse(a.value) == c_.left.id for a in n.body):
                         strict = True
     (run.ok(V4, "find_matching_rule", "depth > best_depth (strictly deepest wins)") if strict else run.finding(V4, "find_matching_rule", "not-strict", "the deepest matching directory rule is not selected with a strict comparison", fm.loc))
-    pm = repo.func(f"{PKG}.directory_matcher.DirectoryMatcher._check_path_match")
+    pm = repo.func_by_role(f"{PKG}.directory_matcher.DirectoryMatcher._check_path_match", "tests one directory key against the path (the method find_matching_rule calls per key)",
+                           lambda g: g.name != "find_matching_rule" and any(is_call_named(n, g.name) for n in ast.walk(fm.node)))
     sw = [n for n in ast.walk(pm.node) if is_call_named(n, "startswith")]
     boundary = any("/" in ast.unparse(n.args[0]) or "rstrip" in ast.unparse(n.args[0]) for n in sw if n.args) or any(isinstance(n, ast.Compare) and "parts" in ast.unparse(n) for n in ast.walk(pm.node)) or any(is_call_named(n, "is_relative_to") for n in ast.walk(pm.node))
     if boundary:
-        run.ok(V4, "_check_path_match", "prefix test respects component boundaries")
+        run.ok(V4, pm.name, "prefix test respects component boundaries")
     else:
-        run.finding(V4, "DirectoryMatcher._check_path_match", "prefix-without-boundary", f"`{norm(sw[0]) if sw else '?'}` is a plain string prefix: the rule for directory `src` also covers `srcs/x.py` or `src_old/x.py`, which it does not contain", pm.loc)
+        run.finding(V4, f"DirectoryMatcher.{pm.name}", "prefix-without-boundary", f"`{norm(sw[0]) if sw else '?'}` is a plain string prefix: the rule for directory `src` also covers `srcs/x.py` or `src_old/x.py`, which it does not contain", pm.loc)
 
     V5 = run.rule("V5", "matcher compiles with re.IGNORECASE only; validator compiles the same pattern without extra flags", floor=2)
     for fq, want in ((f"{PKG}.pattern_matcher.PatternMatcher._get_compiled", {"IGNORECASE"}), (f"{PKG}.pattern_validator.PatternValidator._validate_pattern", set())):
@@ -196,29 +198,48 @@ def check(run, ctx):
     ok = any(is_call_named(n, "get_relative_path") for n in ast.walk(lp.node)) and any(is_call_named(n, "check_all_rules") for n in ast.walk(lp.node))
     (run.ok(V6, "lint_path", "check_all_rules(normalised get_relative_path(file))") if ok else run.finding(V6, "FilePlacementLinter.lint_path", "not-relative", "the judged path is not obtained from get_relative_path", lp.loc))
     gr = repo.func(f"{PKG}.path_resolver.PathResolver.get_relative_path")
-    resolves = any(isinstance(n, ast.Call) and call_name(n) in ("resolve", "absolute", "cwd") for n in ast.walk(gr.node)) and sum(1 for n in ast.walk(gr.node) if isinstance(n, ast.Call) and call_name(n) == "relative_to") >= (2 if any(isinstance(n, ast.If) and "is_absolute" in ast.unparse(n.test) for n in ast.walk(gr.node)) else 1)
-    raw_rel = any(isinstance(n, ast.If) and "is_absolute" in ast.unparse(n.test) for n in ast.walk(gr.node))
-    if resolves or not raw_rel:
+    # what is handed to .relative_to(project_root): every expression E with `return E.relative_to(...)`, helper calls
+    # replaced by the helper's own return expressions (one producer per return), each with its guard
+    def producers(owner, e, guarded):
+        if isinstance(e, ast.Call):
+            g = inline.resolve_call(repo, owner, e)
+            if g is not None and g.module.name.startswith("src") and g.qual != owner.qual:
+                out_ = []
+                for r_ in [x for x in ast.walk(g.node) if isinstance(x, ast.Return) and x.value is not None]:
+                    in_abs = any(isinstance(i_, ast.If) and any(is_call_named(c_, "is_absolute") for c_ in ast.walk(i_.test)) and any(r_ is y for b_ in i_.body for y in ast.walk(b_)) for i_ in ast.walk(g.node))
+                    out_ += producers(g, r_.value, guarded or in_abs)
+                return out_
+        return [(e, guarded)]
+
+    prods = []
+    for r_ in [x for x in ast.walk(gr.node) if isinstance(x, ast.Return) and x.value is not None]:
+        v_ = r_.value
+        if isinstance(v_, ast.Call) and call_name(v_) == "relative_to" and isinstance(v_.func, ast.Attribute):
+            in_abs = any(isinstance(i_, ast.If) and any(is_call_named(c_, "is_absolute") for c_ in ast.walk(i_.test)) and any(r_ is y for b_ in i_.body for y in ast.walk(b_)) for i_ in ast.walk(gr.node))
+            prods += producers(gr, v_.func.value, in_abs)
+    run.require(bool(prods), "get_relative_path: no `return <path>.relative_to(project_root)` found")
+    def has(e, *names):
+        return any(isinstance(x, ast.Call) and (call_name(x) in names or dotted(x.func) in names) for x in ast.walk(e))
+    as_is = [e for e, guarded in prods if not guarded and not has(e, "resolve", "absolute", "cwd", "abspath", "os.path.abspath")]
+    if not as_is:
         run.ok(V6, "get_relative_path", "relative inputs are made absolute before relative_to(project_root)")
     else:
         run.finding(V6, "PathResolver.get_relative_path", "relative-path-as-is", "a relative path is returned unchanged (relative to the working directory, not the project root): the same file gets a different verdict when the command is run from a sub-directory", gr.loc)
-    follows = [n for n in ast.walk(gr.node) if isinstance(n, ast.Call) and call_name(n) in ("resolve", "realpath") and "file_path" in ast.unparse(n)]
+    follows = [e for e, _g in prods if has(e, "resolve", "realpath", "os.path.realpath")]
     if follows:
         run.finding(V6, "PathResolver.get_relative_path", "follows-symlinks", f"`{norm(follows[0])}` follows symbolic links: a symlinked file is judged by where its target lives, not by its own path relative to the project root", gr.loc)
     else:
         run.ok(V6, "get_relative_path symlinks", "the file path is not resolved through symlinks")
-    branches = [n for n in ast.walk(gr.node) if isinstance(n, ast.Return) and n.value is not None and any(is_call_named(x, "relative_to") for x in ast.walk(n.value))]
-    sym_follow = [any(is_call_named(x, "resolve", "realpath") for x in ast.walk(b.value)) for b in branches]
-    if branches and len(set(sym_follow)) > 1:
+    if len({has(e, "resolve", "realpath", "os.path.realpath") for e, _g in prods}) > 1:
         run.finding(V6, "PathResolver.get_relative_path", "symlink-asymmetry", "one spelling of the path is canonicalised with resolve() (follows symlinks) and the other is not: a symlinked file is judged by the link's location when named absolutely and by the target's location when named relatively", gr.loc)
     else:
-        run.ok(V6, "get_relative_path branches", f"{len(branches)} relativising branches canonicalise alike")
-
-    unnormalised = [b for b in branches if not any(isinstance(x, ast.Call) and (dotted(x.func) in ("os.path.normpath", "os.path.abspath", "normpath", "abspath") or call_name(x) == "resolve") for x in ast.walk(b.value))]
-    if branches and not unnormalised:
+        run.ok(V6, "get_relative_path branches", f"{len(prods)} relativising branches canonicalise alike")
+    unnormalised = [e for e, _g in prods if not has(e, "os.path.normpath", "os.path.abspath", "normpath", "abspath", "resolve")]
+    if not unnormalised:
         run.ok(V6, "get_relative_path dot segments", "`.` and `..` are collapsed lexically (os.path.normpath) on every relativising branch")
     else:
-        run.finding(V6, "PathResolver.get_relative_path", "dotdot-not-collapsed", f"`{norm(unnormalised[0].value) if unnormalised else 'no relativising branch'}` keeps `..` components: `tests/../src/a.py` is judged as a file of tests/, not of src/ - the verdict depends on the spelling", gr.loc)
+        run.finding(V6, "PathResolver.get_relative_path", "dotdot-not-collapsed", f"`{norm(unnormalised[0])}` keeps `..` components: `tests/../src/a.py` is judged as a file of tests/, not of src/ - the verdict depends on the spelling", gr.loc)
+    # a path that is not under the project root is still handed on as given (ValueError branch) - that is the documented fall-back
 
     V7 = run.rule("V7", "an allow list is applied whenever its key is present: what skips match_allow_patterns is a key-presence test (`'allow' not in rule`, KeyError, `is None`), never the truthiness of the list", floor=2,
                   decides="`allow: []` allows nothing (every file there is reported), exactly like the global allow list")
